@@ -19,8 +19,11 @@
 (* MultiReaders `clients` / `agents` (regOut; their internal scheduling is *)
 (* refined in MultiReader.tla), the per-source byte channels (out, inbox), *)
 (* the two registration queues (pendIn, pendOut), the outgoing_tx          *)
-(* NotFound messages (sys) and the socket in either direction (wireIn,     *)
-(* and the wire_out label of Mux steps).                                   *)
+(* NotFound messages (sys) and the socket in either direction: inbound the *)
+(* web socket frames the peer writes (wsIn: whole messages, fragments,     *)
+(* ping / pong / close control frames at any point), ratchet's reassembly  *)
+(* into text frames (asm -> wireIn, action WsRead = text_frame_stream);    *)
+(* outbound the wire_out label of Mux steps.                               *)
 (***************************************************************************)
 EXTENDS Naturals, Sequences, FiniteSets, TLC
 
@@ -88,7 +91,8 @@ CONSTANTS Nodes,        \* abstract node URIs
           Dls,          \* downlink ids
           Bodies,       \* abstract non-empty bodies
           MaxInst,      \* agent incarnations per node
-          ServerMode    \* find_tx = Some(..)
+          ServerMode,   \* find_tx = Some(..)
+          MaxFrag       \* a peer may split a text message into 1..MaxFrag web socket frames
 
 NNF == "@nodeNotFound"
 NoMsg == [kind |-> "none"]
@@ -121,13 +125,19 @@ VARIABLES subs,      \* client_subscriptions : [Nodes \X Lanes -> Seq(Dls)]  (Re
           wireIn,    \* frames written by the peer, not yet read
           resolving, \* the request whose agent is being resolved (connect_agent_route), or NoMsg
           closed,    \* the task has terminated (invalid frame)
-          cnt,       \* [send, peer] counters (bounds for model checking only)
+          cnt,       \* [send, peer, ctl] counters (bounds for model checking only)
+          wsIn,      \* web socket frames written by the peer, not yet read by ratchet's receiver
+          sending,   \* peer side: the fragmented message under way [msg, next, of], or NoMsg
+          asm,       \* receiver side: fragments of the current message held in the read buffer (text_frame_stream's
+                     \* `buffer`, carried across read() calls that return Ping / Pong)
           lastAct
 
+ws == <<wsIn, sending, asm>>
+
 vars == <<subs, routes, inst, alive, dl, pendIn, pendOut, inDone, outDone, regOut, out, inbox, sys,
-          wireIn, resolving, closed, cnt, lastAct>>
+          wireIn, resolving, closed, cnt, wsIn, sending, asm, lastAct>>
 View == <<subs, routes, inst, alive, dl, pendIn, pendOut, inDone, outDone, regOut, out, inbox, sys,
-          wireIn, resolving, closed, cnt>>
+          wireIn, resolving, closed, cnt, wsIn, sending, asm>>
 
 NoDl == [st |-> "new", node |-> "-", lane |-> "-"]
 Init ==
@@ -137,7 +147,8 @@ Init ==
     /\ pendIn = <<>> /\ pendOut = <<>> /\ inDone = {} /\ outDone = {} /\ regOut = {}
     /\ out = [s \in Srcs |-> <<>>] /\ inbox = [s \in Srcs |-> <<>>]
     /\ sys = <<>> /\ wireIn = <<>> /\ resolving = NoMsg /\ closed = FALSE
-    /\ cnt = [send |-> 0, peer |-> 0]
+    /\ cnt = [send |-> 0, peer |-> 0, ctl |-> 0]
+    /\ wsIn = <<>> /\ sending = NoMsg /\ asm = 0
     /\ lastAct = [k |-> "init"]
 
 DlAlive(d) == dl[d].st \in {"req", "att"}       \* the downlink still holds its channel ends
@@ -152,7 +163,7 @@ AttachReq(d, n, l) ==
     /\ dl' = [dl EXCEPT ![d] = [st |-> "req", node |-> n, lane |-> l]]
     /\ pendIn' = Append(pendIn, d) /\ pendOut' = Append(pendOut, d)
     /\ lastAct' = [k |-> "attach_req", d |-> d, node |-> n, lane |-> l]
-    /\ UNCHANGED <<subs, routes, inst, alive, inDone, outDone, regOut, out, inbox, sys, wireIn, resolving, closed, cnt>>
+    /\ UNCHANGED ws /\ UNCHANGED <<subs, routes, inst, alive, inDone, outDone, regOut, out, inbox, sys, wireIn, resolving, closed, cnt>>
 
 \* a send-only client: AttachClient::OneWay -> registration_task -> RegisterOutgoing only; it is
 \* subscribed to nothing, so nothing is ever routed to it
@@ -162,21 +173,21 @@ AttachOneWay(d) ==
     /\ pendOut' = Append(pendOut, d)
     /\ inDone' = inDone \cup {d}               \* nothing to do on the incoming half
     /\ lastAct' = [k |-> "attach_oneway", d |-> d]
-    /\ UNCHANGED <<subs, routes, inst, alive, pendIn, outDone, regOut, out, inbox, sys, wireIn, resolving, closed, cnt>>
+    /\ UNCHANGED ws /\ UNCHANGED <<subs, routes, inst, alive, pendIn, outDone, regOut, out, inbox, sys, wireIn, resolving, closed, cnt>>
 
 \* the `done` promise of the attach request is fulfilled (both halves registered)
 AttachDone(d) ==
     /\ dl[d].st = "req" /\ d \in inDone /\ d \in outDone
     /\ dl' = [dl EXCEPT ![d].st = "att"]
     /\ lastAct' = [k |-> "attach_done", d |-> d]
-    /\ UNCHANGED <<subs, routes, inst, alive, pendIn, pendOut, inDone, outDone, regOut, out, inbox, sys, wireIn, resolving, closed, cnt>>
+    /\ UNCHANGED ws /\ UNCHANGED <<subs, routes, inst, alive, pendIn, pendOut, inDone, outDone, regOut, out, inbox, sys, wireIn, resolving, closed, cnt>>
 
 DlSend(d, m) ==
     /\ ~closed /\ dl[d].st = "att" /\ m \in ReqMsgs
     /\ out' = [out EXCEPT ![DlSrc(d)] = Append(@, m)]
     /\ cnt' = [cnt EXCEPT !.send = @ + 1]
     /\ lastAct' = [k |-> "dl_send", d |-> d, msg |-> m]
-    /\ UNCHANGED <<subs, routes, inst, alive, dl, pendIn, pendOut, inDone, outDone, regOut, inbox, sys, wireIn, resolving, closed>>
+    /\ UNCHANGED ws /\ UNCHANGED <<subs, routes, inst, alive, dl, pendIn, pendOut, inDone, outDone, regOut, inbox, sys, wireIn, resolving, closed>>
 
 \* the downlink drops both channel ends (what it already wrote stays in its channel)
 DlDetach(d) ==
@@ -184,36 +195,63 @@ DlDetach(d) ==
     /\ dl' = [dl EXCEPT ![d].st = "det"]
     /\ inbox' = [inbox EXCEPT ![DlSrc(d)] = <<>>]
     /\ lastAct' = [k |-> "dl_detach", d |-> d]
-    /\ UNCHANGED <<subs, routes, inst, alive, pendIn, pendOut, inDone, outDone, regOut, out, sys, wireIn, resolving, closed, cnt>>
+    /\ UNCHANGED ws /\ UNCHANGED <<subs, routes, inst, alive, pendIn, pendOut, inDone, outDone, regOut, out, sys, wireIn, resolving, closed, cnt>>
 
 AgentSend(n, m) ==
     /\ ~closed /\ AgAlive(n, inst[n]) /\ m \in RespMsgs /\ m.node = n
     /\ out' = [out EXCEPT ![AgSrc(n, inst[n])] = Append(@, m)]
     /\ cnt' = [cnt EXCEPT !.send = @ + 1]
     /\ lastAct' = [k |-> "agent_send", node |-> n, inst |-> inst[n], msg |-> m]
-    /\ UNCHANGED <<subs, routes, inst, alive, dl, pendIn, pendOut, inDone, outDone, regOut, inbox, sys, wireIn, resolving, closed>>
+    /\ UNCHANGED ws /\ UNCHANGED <<subs, routes, inst, alive, dl, pendIn, pendOut, inDone, outDone, regOut, inbox, sys, wireIn, resolving, closed>>
 
 AgentStop(n) ==
     /\ AgAlive(n, inst[n])
     /\ alive' = [alive EXCEPT ![n] = FALSE]
     /\ inbox' = [inbox EXCEPT ![AgSrc(n, inst[n])] = <<>>]
     /\ lastAct' = [k |-> "agent_stop", node |-> n, inst |-> inst[n]]
-    /\ UNCHANGED <<subs, routes, inst, dl, pendIn, pendOut, inDone, outDone, regOut, out, sys, wireIn, resolving, closed, cnt>>
+    /\ UNCHANGED ws /\ UNCHANGED <<subs, routes, inst, dl, pendIn, pendOut, inDone, outDone, regOut, out, sys, wireIn, resolving, closed, cnt>>
 
-\* the peer writes a text frame
+\* The peer writes web socket frames (RFC 6455).  A text message is one text frame (FIN), or a text frame without
+\* FIN followed by continuation frames, the last one with FIN; between the fragments of one message no other data
+\* frame may be sent, but control frames (ping, pong - also unsolicited -, close) may be sent at any point.
+DataFrame(f, j, n) == [ws |-> "data", msg |-> f, part |-> j, of |-> n]
+CtlFrame(c) == [ws |-> c]
+
+\* a whole message in one frame
 PeerSend(f) ==
-    /\ ~closed /\ f \in Frames
-    /\ wireIn' = Append(wireIn, f)
+    /\ ~closed /\ f \in Frames /\ sending = NoMsg
+    /\ wsIn' = Append(wsIn, DataFrame(f, 1, 1))
     /\ cnt' = [cnt EXCEPT !.peer = @ + 1]
     /\ lastAct' = [k |-> "peer_send", msg |-> f]
-    /\ UNCHANGED <<subs, routes, inst, alive, dl, pendIn, pendOut, inDone, outDone, regOut, out, inbox, sys, resolving, closed>>
+    /\ UNCHANGED <<sending, asm>>
+    /\ UNCHANGED <<subs, routes, inst, alive, dl, pendIn, pendOut, inDone, outDone, regOut, out, inbox, sys, wireIn, resolving, closed>>
+
+\* fragment j of n of message f: j = 1 starts the message, j = n finishes it
+PeerFrag(f, j, n) ==
+    /\ ~closed /\ f \in Frames /\ n \in 2..MaxFrag /\ j \in 1..n
+    /\ IF j = 1 THEN sending = NoMsg ELSE sending = [msg |-> f, next |-> j, of |-> n]
+    /\ sending' = IF j = n THEN NoMsg ELSE [msg |-> f, next |-> j + 1, of |-> n]
+    /\ wsIn' = Append(wsIn, DataFrame(f, j, n))
+    /\ cnt' = IF j = 1 THEN [cnt EXCEPT !.peer = @ + 1] ELSE cnt
+    /\ lastAct' = [k |-> "peer_frag", msg |-> f, part |-> j, of |-> n]
+    /\ UNCHANGED asm
+    /\ UNCHANGED <<subs, routes, inst, alive, dl, pendIn, pendOut, inDone, outDone, regOut, out, inbox, sys, wireIn, resolving, closed>>
+
+\* a control frame, at any point - in particular between two fragments
+PeerCtl(c) ==
+    /\ ~closed /\ c \in {"ping", "pong", "close"}
+    /\ wsIn' = Append(wsIn, CtlFrame(c))
+    /\ cnt' = [cnt EXCEPT !.ctl = @ + 1]
+    /\ lastAct' = [k |-> "peer_ctl", c |-> c, mid |-> (sending # NoMsg)]
+    /\ UNCHANGED <<sending, asm>>
+    /\ UNCHANGED <<subs, routes, inst, alive, dl, pendIn, pendOut, inDone, outDone, regOut, out, inbox, sys, wireIn, resolving, closed>>
 
 \* a downlink / an agent reads the next frame from its channel
 Recv(s) ==
     /\ inbox[s] # <<>> /\ ~SrcGone(s)
     /\ inbox' = [inbox EXCEPT ![s] = Tail(@)]
     /\ lastAct' = [k |-> "recv", to |-> s, msg |-> Head(inbox[s])]
-    /\ UNCHANGED <<subs, routes, inst, alive, dl, pendIn, pendOut, inDone, outDone, regOut, out, sys, wireIn, resolving, closed, cnt>>
+    /\ UNCHANGED ws /\ UNCHANGED <<subs, routes, inst, alive, dl, pendIn, pendOut, inDone, outDone, regOut, out, sys, wireIn, resolving, closed, cnt>>
 
 -----------------------------------------------------------------------------
 (* RemoteTask *)
@@ -225,7 +263,7 @@ RegIn ==
        /\ inDone' = inDone \cup {d}
        /\ lastAct' = [k |-> "reg_in", d |-> d]
     /\ pendIn' = Tail(pendIn)
-    /\ UNCHANGED <<routes, inst, alive, dl, pendOut, outDone, regOut, out, inbox, sys, wireIn, resolving, closed, cnt>>
+    /\ UNCHANGED ws /\ UNCHANGED <<routes, inst, alive, dl, pendOut, outDone, regOut, out, inbox, sys, wireIn, resolving, closed, cnt>>
 
 \* OutgoingTask::run, RegisterOutgoing{Client} : clients.add(reader); done.send(Ok)
 RegOut ==
@@ -235,7 +273,35 @@ RegOut ==
        /\ outDone' = outDone \cup {d}
        /\ lastAct' = [k |-> "reg_out", d |-> d]
     /\ pendOut' = Tail(pendOut)
-    /\ UNCHANGED <<subs, routes, inst, alive, dl, pendIn, inDone, out, inbox, sys, wireIn, resolving, closed, cnt>>
+    /\ UNCHANGED ws /\ UNCHANGED <<subs, routes, inst, alive, dl, pendIn, inDone, out, inbox, sys, wireIn, resolving, closed, cnt>>
+
+\* text_frame_stream: one rx.read(&mut buffer).  Ping / Pong: nothing for the incoming task, the buffer (with the
+\* fragments read so far) is carried to the next read; a fragment without FIN stays in the buffer; the last
+\* fragment completes the message, which is handed to the incoming task as one text frame; Close ends the input.
+\* (the stream is pulled by the incoming task's loop, i.e. only when the previous text frame has been dealt with)
+CanWsRead == ~closed /\ wsIn # <<>> /\ wireIn = <<>> /\ resolving = NoMsg
+WsRead ==
+    /\ CanWsRead
+    /\ LET x == Head(wsIn) IN
+       /\ wsIn' = Tail(wsIn)
+       /\ CASE x.ws \in {"ping", "pong"} ->
+                 /\ lastAct' = [k |-> "ws_read", frame |-> x.ws, held |-> asm]
+                 /\ UNCHANGED <<asm, wireIn, closed>>
+            [] x.ws = "close" ->           \* InputError::Closed: the task ends, nothing is sent back
+                 /\ closed' = TRUE
+                 /\ lastAct' = [k |-> "ws_read", frame |-> "close", held |-> asm]
+                 /\ UNCHANGED <<asm, wireIn>>
+            [] x.ws = "data" /\ x.part < x.of ->
+                 /\ asm' = asm + 1
+                 /\ lastAct' = [k |-> "ws_read", frame |-> "fragment", held |-> asm]
+                 /\ UNCHANGED <<wireIn, closed>>
+            [] x.ws = "data" /\ x.part = x.of ->
+                 /\ asm' = 0
+                 /\ wireIn' = Append(wireIn, x.msg)       \* all x.of fragments, in order: the message as written
+                 /\ lastAct' = [k |-> "ws_read", frame |-> "message", held |-> asm]
+                 /\ UNCHANGED closed
+    /\ UNCHANGED sending
+    /\ UNCHANGED <<subs, routes, inst, alive, dl, pendIn, pendOut, inDone, outDone, regOut, out, inbox, sys, resolving, cnt>>
 
 \* send_response: broadcast to every writer of the entry; writers whose channel is closed are
 \* filtered out; an entry left empty is removed (the empty sequence)
@@ -250,31 +316,31 @@ Route ==
        /\ CASE f.kind = "invalid" ->          \* break Err(InvalidEnvelope): everything stops, close frame
                  /\ closed' = TRUE
                  /\ lastAct' = [k |-> "route", msg |-> f, to |-> {}]
-                 /\ UNCHANGED <<subs, routes, inbox, sys, resolving>>
+                 /\ UNCHANGED ws /\ UNCHANGED <<subs, routes, inbox, sys, resolving>>
             [] f.kind = "auth" ->             \* interpret_envelope = None
                  /\ lastAct' = [k |-> "route", msg |-> f, to |-> {}]
-                 /\ UNCHANGED <<subs, routes, inbox, sys, resolving, closed>>
+                 /\ UNCHANGED ws /\ UNCHANGED <<subs, routes, inbox, sys, resolving, closed>>
             [] f.kind \in ResponseKinds ->
                  LET to == {DlSrc(d) : d \in Deliverees(f)} IN
                  /\ inbox' = AppendTo(inbox, to, f)
                  /\ subs' = [subs EXCEPT ![<<f.node, f.lane>>] = SelectSeq(@, DlAlive)]
                  /\ lastAct' = [k |-> "route", msg |-> f, to |-> to]
-                 /\ UNCHANGED <<routes, sys, resolving, closed>>
+                 /\ UNCHANGED ws /\ UNCHANGED <<routes, sys, resolving, closed>>
             [] f.kind \in RequestKinds ->
                  IF ~ServerMode THEN           \* no find_tx: NotFound straight to the outgoing task
                      /\ sys' = IF f.kind = "command" THEN sys ELSE Append(sys, Msg("unlinked", f.node, f.lane, NNF))
                      /\ lastAct' = [k |-> "route", msg |-> f, to |-> {}]
-                     /\ UNCHANGED <<subs, routes, inbox, resolving, closed>>
+                     /\ UNCHANGED ws /\ UNCHANGED <<subs, routes, inbox, resolving, closed>>
                  ELSE IF routes[f.node] # 0 /\ AgAlive(f.node, routes[f.node]) THEN
                      /\ inbox' = AppendTo(inbox, {AgSrc(f.node, routes[f.node])}, f)
                      /\ lastAct' = [k |-> "route", msg |-> f, to |-> {AgSrc(f.node, routes[f.node])}]
-                     /\ UNCHANGED <<subs, routes, sys, resolving, closed>>
+                     /\ UNCHANGED ws /\ UNCHANGED <<subs, routes, sys, resolving, closed>>
                  ELSE                          \* no route, or the send failed: agent_routes.remove; connect_agent_route
                      /\ routes' = [routes EXCEPT ![f.node] = 0]
                      /\ resolving' = f
                      /\ lastAct' = [k |-> "route", msg |-> f, to |-> {}]
-                     /\ UNCHANGED <<subs, inbox, sys, closed>>
-    /\ UNCHANGED <<inst, alive, dl, pendIn, pendOut, inDone, outDone, regOut, out, cnt>>
+                     /\ UNCHANGED ws /\ UNCHANGED <<subs, inbox, sys, closed>>
+    /\ UNCHANGED ws /\ UNCHANGED <<inst, alive, dl, pendIn, pendOut, inDone, outDone, regOut, out, cnt>>
 
 \* connect_agent_route: FindNode answered by the plane; Ok -> RegisterOutgoing{Server} (awaited), route
 \* stored, the pending request forwarded; NotFound -> @unlinked(..)@nodeNotFound unless a command
@@ -292,41 +358,42 @@ Resolve ==
        ELSE
            /\ sys' = IF f.kind = "command" THEN sys ELSE Append(sys, Msg("unlinked", n, f.lane, NNF))
            /\ lastAct' = [k |-> "find", node |-> n, lane |-> f.lane, found |-> FALSE, to |-> {}, msg |-> f]
-           /\ UNCHANGED <<inst, alive, routes, regOut, inbox>>
+           /\ UNCHANGED ws /\ UNCHANGED <<inst, alive, routes, regOut, inbox>>
     /\ resolving' = NoMsg
-    /\ UNCHANGED <<subs, dl, pendIn, pendOut, inDone, outDone, out, wireIn, closed, cnt>>
+    /\ UNCHANGED ws /\ UNCHANGED <<subs, dl, pendIn, pendOut, inDone, outDone, out, wireIn, closed, cnt>>
 
 \* OutgoingTask::run, arms clients.next() / agents.next() : encode, write the text frame
 Mux(s) ==
     /\ ~closed /\ s \in regOut /\ out[s] # <<>>
     /\ out' = [out EXCEPT ![s] = Tail(@)]
     /\ lastAct' = [k |-> "wire_out", from |-> s, msg |-> Head(out[s])]
-    /\ UNCHANGED <<subs, routes, inst, alive, dl, pendIn, pendOut, inDone, outDone, regOut, inbox, sys, wireIn, resolving, closed, cnt>>
+    /\ UNCHANGED ws /\ UNCHANGED <<subs, routes, inst, alive, dl, pendIn, pendOut, inDone, outDone, regOut, inbox, sys, wireIn, resolving, closed, cnt>>
 
 \* OutgoingTask::run, arm messages_rx, NotFound
 MuxSys ==
     /\ ~closed /\ sys # <<>>
     /\ sys' = Tail(sys)
     /\ lastAct' = [k |-> "wire_out", from |-> <<"sys", "-", 0>>, msg |-> Head(sys)]
-    /\ UNCHANGED <<subs, routes, inst, alive, dl, pendIn, pendOut, inDone, outDone, regOut, out, inbox, wireIn, resolving, closed, cnt>>
+    /\ UNCHANGED ws /\ UNCHANGED <<subs, routes, inst, alive, dl, pendIn, pendOut, inDone, outDone, regOut, out, inbox, wireIn, resolving, closed, cnt>>
 
 \* the stream of a source that went away ends once drained: MultiReader removes it
 MuxEnd(s) ==
     /\ s \in regOut /\ out[s] = <<>> /\ SrcGone(s)
     /\ regOut' = regOut \ {s}
     /\ lastAct' = [k |-> "mux_end", from |-> s]
-    /\ UNCHANGED <<subs, routes, inst, alive, dl, pendIn, pendOut, inDone, outDone, out, inbox, sys, wireIn, resolving, closed, cnt>>
+    /\ UNCHANGED ws /\ UNCHANGED <<subs, routes, inst, alive, dl, pendIn, pendOut, inDone, outDone, out, inbox, sys, wireIn, resolving, closed, cnt>>
 
-Internal == RegIn \/ RegOut \/ Route \/ Resolve \/ MuxSys \/ \E s \in Srcs : Mux(s) \/ MuxEnd(s)
+Internal == WsRead \/ RegIn \/ RegOut \/ Route \/ Resolve \/ MuxSys \/ \E s \in Srcs : Mux(s) \/ MuxEnd(s)
 Env == \/ \E d \in Dls : \/ \E n \in Nodes, l \in Lanes : AttachReq(d, n, l)
                          \/ AttachOneWay(d) \/ AttachDone(d) \/ DlDetach(d)
                          \/ \E m \in ReqMsgs : DlSend(d, m)
        \/ \E n \in Nodes : AgentStop(n) \/ \E m \in RespMsgs : AgentSend(n, m)
-       \/ \E f \in Frames : PeerSend(f)
+       \/ \E f \in Frames : PeerSend(f) \/ \E n \in 2..MaxFrag, j \in 1..MaxFrag : PeerFrag(f, j, n)
+       \/ \E c \in {"ping", "pong", "close"} : PeerCtl(c)
        \/ \E s \in Srcs : Recv(s)
 Next == Env \/ Internal
 
-Fairness == /\ WF_vars(RegIn) /\ WF_vars(RegOut) /\ WF_vars(Route) /\ WF_vars(Resolve) /\ WF_vars(MuxSys)
+Fairness == /\ WF_vars(WsRead) /\ WF_vars(RegIn) /\ WF_vars(RegOut) /\ WF_vars(Route) /\ WF_vars(Resolve) /\ WF_vars(MuxSys)
             /\ \A s \in Srcs : WF_vars(Mux(s)) /\ WF_vars(Recv(s))
 Spec == Init /\ [][Next]_vars
 FairSpec == Spec /\ Fairness
@@ -380,12 +447,14 @@ TablesSound ==
 \* a source that wrote something is (or is about to be) multiplexed: nothing can be stranded
 NothingStranded == \A s \in Srcs : out[s] # <<>> => (s \in regOut \/ closed)
 \* after the invalid frame nothing moves any more
-ClosedIsFinal == closed => (lastAct.k \in {"route", "recv", "attach_done", "dl_detach", "agent_stop", "mux_end"})
+ClosedIsFinal == closed => (lastAct.k \in {"ws_read", "route", "recv", "attach_done", "dl_detach", "agent_stop", "mux_end"})
 
 \* "messages from the many agents and downlinks sharing one socket all leave it" / every frame is routed
 AllLeave  == \A s \in Srcs : (out[s] # <<>>) ~> (out[s] = <<>> \/ closed)
-AllRouted == (wireIn # <<>>) ~> (wireIn = <<>> \/ closed)
-Quiescent == /\ wireIn = <<>> /\ resolving = NoMsg /\ sys = <<>> /\ pendIn = <<>> /\ pendOut = <<>>
+AllRouted == (wireIn # <<>> \/ wsIn # <<>>) ~> ((wireIn = <<>> /\ wsIn = <<>>) \/ closed)
+\* the receiver holds exactly the fragments the peer has sent of the message under way and that were read
+FragmentsHeld == asm <= MaxFrag /\ (sending = NoMsg /\ wsIn = <<>> => asm = 0)
+Quiescent == /\ wsIn = <<>> /\ wireIn = <<>> /\ resolving = NoMsg /\ sys = <<>> /\ pendIn = <<>> /\ pendOut = <<>>
              /\ \A s \in Srcs : out[s] = <<>> /\ (inbox[s] = <<>> \/ SrcGone(s))
 
 =============================================================================
